@@ -250,7 +250,20 @@ def gen_family(rng, force=(), forbid=(), n_masters=None, max_glyphs=14, p_sparse
         glyphs[name] = g
     # second code point on some glyph (several per glyph)
     if rng.random() < 0.3 and "A" in glyphs:
-        glyphs["A"]["unicodes"].append(0x391)  # Greek Alpha look-alike
+        if rng.random() < 0.5:
+            glyphs["A"]["unicodes"].append(0x391)  # Greek Alpha look-alike
+        else:
+            # the primary code point is not the smallest one (production names,
+            # cmap and OS/2 ranges are derived from the *first* entry)
+            glyphs["A"]["unicodes"].insert(0, 0x391)
+    if rng.random() < 0.2:
+        cands = [n for n in glyphs if glyphs[n]["unicodes"] and n != "A" and glyphs[n]["unicodes"][0] > 0x40]
+        if cands:
+            n = cands[rng.randrange(len(cands))]
+            u = glyphs[n]["unicodes"][0]
+            used = {c for g_ in glyphs.values() for c in g_["unicodes"]}
+            lo = u - 0x20 if (u - 0x20) not in used else None
+            glyphs[n]["unicodes"] = [u, lo] if (lo and rng.random() < 0.5) else [0xE100 + (u & 0xFF), u]
     # components
     tkinds = ["offset", "offset", "offset"]
     if "transformed" in on:
